@@ -19,7 +19,7 @@ GettersVs(g, p) ==
   ELSE ""
 DecodeVerdict(e) ==
   LET p == Parse(e.bytes) IN
-  IF ~p.ok THEN "harness-not-wellformed"
+  IF ~p.ok THEN (IF e.lenient THEN "" ELSE "harness-not-wellformed")   \* fuzzer-chosen bytes need not be an EBP at all
   ELSE IF e.err THEN "wellformed-ebp-rejected"
   ELSE IF GettersVs(e.g, p) # "" THEN "decode-" \o GettersVs(e.g, p)
   ELSE IF e.redata # e.bytes THEN "reencode-differs"
